@@ -474,7 +474,14 @@ func lifecycleHarness(rc *RunCtx) {
 				st.PeerEnd(nil)
 				rc.Fault("eof-at-offset")
 			} else {
-				st.PeerEnd(ErrReset())
+				if tp.Intn("errkind", 3) == 2 {
+					// what a socket with a read timeout reports when the peer stalls (TSocket with SocketTimeout): a failed
+					// read like any other
+					st.PeerEnd(thrift.NewTTransportException(thrift.TIMED_OUT, "read tcp 127.0.0.1:9090: i/o timeout"))
+					rc.Fault("read-error-of-type-timed-out")
+				} else {
+					st.PeerEnd(ErrReset())
+				}
 				rc.Fault("read-error-at-offset")
 			}
 			if at > 0 && at < 4 {
